@@ -8,6 +8,7 @@
      included <hex path>  the include set, in order of inclusion
      starved <0|1>        1 if the nesting fuel of the model ran out (proved impossible: C20_fuel_sufficient)
      directives <n>       directives the expansion stood on; unresolved <n>: those kept verbatim
+     comments_ok <0|1>    [includes_outside_comments tree] (AmalgamCommentDefs); include_in_comment <hex path>: the files that break it
      bytes <n>            size of the generated header *)
 open Amalgam_model
 let rec pos_of_int n = if n = 1 then XH else if n land 1 = 1 then XI (pos_of_int (n lsr 1)) else XO (pos_of_int (n lsr 1))
@@ -114,6 +115,8 @@ let () =
   Printf.printf "starved %d\n" (if starved g then 1 else 0);
   Printf.printf "directives %d\n" (List.length (met g));
   Printf.printf "unresolved %d\n" (List.length (List.filter (fun (_, r) -> r = None) (met g)));
+  Printf.printf "comments_ok %d\n" (if includes_outside_comments tree then 1 else 0);
+  List.iter (fun p -> Printf.printf "include_in_comment %s\n" (hex_of_path p)) (files_with_include_in_comment tree);
   let b = Buffer.create 200000 in
   List.iter (fun c -> Buffer.add_char b (Char.chr (int_of_n c land 255))) out;
   let oc = open_out_bin Sys.argv.(2) in
